@@ -149,6 +149,10 @@ var Universe = []UType{
 	{"ut.MyInt64", "int", []string{"int64"}}, {"ut.MyBytes", "bytes", []string{"[]byte"}}, {"ut.MyF32", "float", []string{"float32"}}, {"ut.MyF64", "float", []string{"float64"}},
 	{"ut.Labels", "", []string{"[]string"}}, {"ut.MyMap", "", []string{"map[string]int"}}, {"ut.MyBool", "", []string{"bool"}}, {"*ut.Buf", "", []string{"fmt.Stringer", "ut.Buf"}},
 	{"ut.Tag", "", []string{"fmt.Stringer", "uint8"}},
+	// unnamed composite types built from structs
+	{"struct{ A int8; B string }", "", []string{"struct{ A int8; C string }", "ut.Pt"}}, {"[]struct{ X int }", "", []string{"[]struct{ Y int }", "[]ut.Pt"}},
+	{"*struct{ X int64 }", "", []string{"struct{ X int64 }", "*ut.Pt"}}, {"[2]ut.Pt", "", []string{"[2]altut.Pt", "[3]ut.Pt"}}, {"map[ut.Pt]string", "", []string{"map[altut.Pt]string"}},
+	{"func(ut.Pt) error", "", []string{"func(altut.Pt) error", "func(ut.Pt)"}},
 	// same printed name as the ut namesakes, different package: "*ut.Pt", "[]ut.MyStr", "ut.Pt"
 	{"*altut.Pt", "", []string{"*ut.Pt"}}, {"[]altut.MyStr", "", []string{"[]ut.MyStr", "[]string"}}, {"altut.Pt", "", []string{"ut.Pt"}},
 }
